@@ -79,7 +79,7 @@ def gen_stream(rng, maxbytes):
         size += 9 + len(fr[2])
     modes = {}
     for c in cids:
-        modes[c] = {"mode": rng.choice(("receive", "receive", "callback", "callback_dropped", "callback_backlog")), "receivers": rng.choice((1, 2, 3)),
+        modes[c] = {"mode": rng.choice(("receive", "receive", "callback", "callback_dropped", "callback_backlog", "callback_raising")), "receivers": rng.choice((1, 2, 3)),
                     "waitclosers": rng.choice((0, 1, 2)), "attach": rng.choice(("before", "after"))}
     return {"cids": cids, "frames": frames, "modes": modes}
 
@@ -181,6 +181,19 @@ def run_one_cut(res, rng, prog, S, k, transport, variant, label):
             return
         elif md["mode"] == "callback":
             chans[c].setcallback(logs[c]["cb"].append, endmarker=END)
+        elif md["mode"] == "callback_raising" and c not in raising:
+            chans[c].setcallback(logs[c]["cb"].append, endmarker=END)
+        elif md["mode"] == "callback_raising":
+            # a callback that fails on its first item, slowly enough for the connection to be gone by then: the failure
+            # can no longer be reported to the peer, which must not cost the other channels their complete items
+            def failing(item, log=logs[c]["cb"]):
+                log.append(item)
+                if item != END and len(log) == 1:
+                    time.sleep(0.03)
+                    raise ValueError("callback failure after the peer went away")
+
+            chans[c].setcallback(failing, endmarker=END)
+            res.count("cuts_with_failing_callback")
         elif md["mode"] == "callback_dropped":
             # the common gw.remote_exec(..).setcallback(..) idiom: nobody keeps the channel object
             chans[c].setcallback(logs[c]["cb"].append, endmarker=END)
@@ -202,6 +215,8 @@ def run_one_cut(res, rng, prog, S, k, transport, variant, label):
     #  on the other cuts such a channel is an ordinary callback channel)
     pre_items, _e, _c = expected(prog["frames"], k)
     backlog = [c for c in prog["cids"] if prog["modes"][c]["mode"] == "callback_backlog" and k % 16 == 0 and pre_items.get(c)]
+    raising = [c for c in prog["cids"] if prog["modes"][c]["mode"] == "callback_raising" and k % 32 == 8 and pre_items.get(c)
+               and prog["modes"][c]["attach"] == "before"]
     for c in prog["cids"]:
         if prog["modes"][c]["attach"] == "before" and c not in backlog:
             attach(c)
@@ -259,7 +274,19 @@ def run_one_cut(res, rng, prog, S, k, transport, variant, label):
         md = prog["modes"][c]
         wi = want_items.get(c, [])
         lg = logs[c]
-        if md["mode"] in ("callback", "callback_dropped", "callback_backlog"):
+        if c in raising:
+            from vlib import pairs as _p
+
+            _p.wait_until(lambda: END in lg["cb"], 15)
+            got = list(lg["cb"])
+            res.count("waiters_checked")
+            if got != [wi[0], END]:
+                res.violation(m("failing-callback-transcript-wrong"), f"{label}: channel {c}: got {short(got)} want first item + endmarker")
+            for w in lg["wait"]:
+                if w not in ("returned", "EOFError", "RemoteError"):
+                    res.violation(m(f"waitclose-ended-with-{w}"), f"{label}: channel {c}")
+            continue
+        if md["mode"] in ("callback", "callback_dropped", "callback_backlog", "callback_raising"):
             from vlib import pairs as _p
 
             _p.wait_until(lambda: END in lg["cb"], 15)
@@ -326,6 +353,11 @@ def run_cuts(spec):
     exh = 2048 if spec["tier"] == "quick" else 8192
     for si in range(spec["streams"]):
         prog = gen_stream(rng, 1200 if spec["tier"] == "quick" else 6000)
+        if si % 3 == 0:
+            # every shard sees failing callbacks next to other channels
+            while len(prog["cids"]) < 2 or len(prog["frames"]) < 6:
+                prog = gen_stream(rng, 1200 if spec["tier"] == "quick" else 6000)
+            prog["modes"][prog["cids"][0]].update(mode="callback_raising", attach="before")
         S = b"".join(codec.frame(*f) for f in prog["frames"])
         if len(S) <= exh:
             cuts = list(range(len(S) + 1))
@@ -346,6 +378,8 @@ def run_cuts(spec):
             if res.enough():
                 break
             variant = rng.choice(("both", "both", "write_only", "reset"))
+            if k % 32 == 8 and any(md["mode"] == "callback_raising" for md in prog["modes"].values()):
+                variant = "both"  # the failure can then not be reported to the peer
             label = f"stream#{si} len={len(S)} cut={k} variant={variant} frames={short([(c, i, len(p)) for c, i, p in prog['frames']], 200)} modes={prog['modes']}"
             try:
                 run_one_cut(res, rng, prog, S, k, spec["transport"], variant, label)
